@@ -1,39 +1,22 @@
-(* C08 - kernel K17 = body of the per-field bookkeeping loop of _add_pack_method_lines (packers,
-   aliases, nullable_fields, nontrivial_nullable_fields), translated from /repo on this run. *)
+(* C08 - kernel K17 = CodeBuilder.is_field_nullable translated from /repo on this run: the model's
+   notion of a nullable field (the fields omit_none acts on) is the translated predicate. *)
 From Coq Require Import List String ZArith Bool.
-From Verif Require Import PyK PyK_c08 OptProj K8Proofs K17Proofs K17K8Proofs.
-From VerifGen Require Import K8 K17.
+From Verif Require Import PyK PyK_c08 OptProj K17Proofs.
+From VerifGen Require Import K17.
 Import ListNotations.
 Open Scope string_scope.
 
-(* folding the translated loop body over ANY field list from the empty collections: omitted fields
-   leave no trace; a field is in nullable_fields iff it is not omitted and is_field_nullable (K16)
-   holds; it is in nontrivial_nullable_fields iff moreover its packer is not the identity *)
-Theorem K17_bookkeeping : forall (fs: list fplan),
-  let b := fold_b fs empty_b in
-  run_fields fs init_state = Ok (enc_state b) /\
-  k_truthy (KDict b.(b_aliases)) = existsb has_alias (filter keepf fs) /\
-  k_truthy (KList (map KStr b.(b_nullable))) = existsb nullable (filter keepf fs) /\
-  k_truthy (KList (map KStr b.(b_nontrivial))) = existsb (fun p => nullable p && negb p.(p_trivial)) (filter keepf fs) /\
-  (forall x, existsb (String.eqb x) b.(b_nullable) = existsb (fun p => String.eqb x p.(p_name) && nullable p) (filter keepf fs)).
-Proof. exact K17_bookkeeping_lemma. Qed.
-Print Assumptions K17_bookkeeping.
+(* for every field type of the grammar fty (arbitrarily deep Annotated / Final wrapping) and every
+   kind of default: is_field_nullable = OptProj.nullable *)
+Theorem K17_nullable : forall (p: fplan),
+  is_field_nullable (enc_default p.(p_default)) (enc_fty p.(p_ty)) = Ok (KBool (nullable p)).
+Proof. exact K17_nullable_lemma. Qed.
+Print Assumptions K17_nullable.
 
-(* ... and the translated kwargs-vs-literal test (K8) on those collections is the model's form decision *)
-Theorem K17_use_kwargs : forall (c: sctx) (fs: list fplan),
-  let b := fold_b fs empty_b in
-  run_fields fs init_state = Ok (enc_state b) /\
-  res_truthy (use_kwargs_test (KList (map KStr b.(b_nontrivial))) (KList (map KStr b.(b_nullable)))
-                              (KBool c.(s_on)) (KBool c.(s_fon)) (KBool c.(s_fba)) (KDict b.(b_aliases)) (KBool c.(s_od)))
-  = Some (use_kwargs c (filter keepf fs)).
-Proof. exact K17_use_kwargs_lemma. Qed.
-Print Assumptions K17_use_kwargs.
-
-(* non-vacuity: an omitted field, a nullable identity field with alias, a nullable date field *)
-Example K17_example :
-  run_fields [ {| p_name := "h"; p_alias := Some "H"; p_ty := TyOptional; p_trivial := false; p_default := DNo; p_omit := true |};
-               {| p_name := "a"; p_alias := Some "A"; p_ty := TyAnnotated TyOptional; p_trivial := true; p_default := DNo; p_omit := false |};
-               {| p_name := "d"; p_alias := None; p_ty := TyPlain; p_trivial := false; p_default := DVal PNone; p_omit := false |} ] init_state
-  = Ok (KTuple [KDict [(KStr "a", KStr "value"); (KStr "d", KStr "<packer expression>")]; KDict [(KStr "a", KStr "A")];
-                KList [KStr "a"; KStr "d"]; KList [KStr "d"]]).
-Proof. reflexivity. Qed.
+(* non-vacuity: Final[Annotated[Optional[...], ...]] is nullable, Union[A, B, None] is not,
+   a plain type with default None is *)
+Example K17_nullable_example :
+  is_field_nullable KMissing (enc_fty (TyFinal (TyAnnotated TyOptional))) = Ok (KBool true) /\
+  is_field_nullable KMissing (enc_fty TyUnionNone) = Ok (KBool false) /\
+  is_field_nullable KNone (enc_fty TyPlain) = Ok (KBool true).
+Proof. repeat split; reflexivity. Qed.
